@@ -114,7 +114,11 @@ func c19Gen(r *RNG, id string) *Case {
 	var base *Case
 	switch kind {
 	case "snps", "snps-agg":
+		// one aggregate case in three with a table of several thousand rows (a writer that batches its rows makes few,
+		// large write calls: each of them can fail)
+		forceDenseWide = kind == "snps-agg" && r.Chance(1, 3)
 		base = c03Gen(r, id, kind == "snps-agg")
+		forceDenseWide = false
 	case "variants", "variants-agg":
 		base = genVarCase(r, id, varOpts{fmtWeights: [2]int{1, 1}, withIns: r.Bool(), maxGenes: 3})
 		base.SetBool("agg", kind == "variants-agg")
